@@ -62,7 +62,18 @@ class C05(Prop):
         'table_total', 'uncommitted_edit_agree', 'uncommitted_edit_preserves', 'changes_only_if_committed',
         'committed_edit_changes', 'committed_edit_changes_digest', 'committed_field_edit_changes',
         'committed_count_edit_changes', 'changedParts_spec', 'changes_iff_changedParts',
-        'own_input_always_committed', 'scriptSig_witness_never_committed', 'table_depends_on_mode_only')]
+        'own_input_always_committed', 'scriptSig_witness_never_committed', 'table_depends_on_mode_only',
+        'p2pk_verify', 'template_accepts_p2pk', 'template_rejects_wrong_key_p2pk', 'p2pkh_verify',
+        'template_accepts_p2pkh', 'template_rejects_wrong_key_p2pkh', 'template_rejects_other_key_p2pkh',
+        'matching_iff_greedy_reverse', 'multisig_verify', 'template_accepts_multisig',
+        'template_rejects_wrong_key_multisig', 'p2sh_p2pk_verify', 'p2sh_p2pkh_verify', 'p2sh_multisig_verify',
+        'sigCheck_uncommitted_edit', 'chkSig_uncommitted_edit', 'sigCheck_committed_edit',
+        'p2pk_uncommitted_edit_same_verdict', 'p2pkh_uncommitted_edit_same_verdict',
+        'multisig_uncommitted_edit_same_verdict', 'p2pk_committed_edit_rejects',
+        'p2pkh_committed_edit_rejects', 'chkSig_committed_edit', 'multisig_committed_edit_rejects',
+        'p2sh_p2pkh_uncommitted_edit_same_verdict', 'p2sh_multisig_uncommitted_edit_same_verdict',
+        'p2sh_p2pk_uncommitted_edit_same_verdict', 'p2sh_p2pk_committed_edit_rejects',
+        'p2sh_p2pkh_committed_edit_rejects', 'p2sh_multisig_committed_edit_rejects')]
     anchors = [('bitcoin/core/script.py', 'RawSignatureHash'),
                ('bitcoin/core/script.py', 'SignatureHash'),
                ('bitcoin/core/scripteval.py', '_CheckSig'),
@@ -290,6 +301,12 @@ class C05(Prop):
 
         def case(expect, sig, edit, text=text, sub=''):
             return mk('c05.case', expect, cls, sig.hex(), spk.hex(), fl, text, idx, ht, edit, tag=tag + sub)
+        # (0) the scripts are the templates the acceptance theorems are about (Spec/Templates), built here with
+        #     the library's own CScript([...]) / address classes
+        kind = {'p2pk': 'p2pk', 'p2pkh': 'p2pkh', 'p2sh-p2pkh': 'p2sh-p2pkh'}.get(tpl) or \
+            ('p2sh-ms' if tpl.startswith('p2sh') else 'ms')
+        yield mk('c05.tmpl', kind, m, ','.join(bytes(k.pub).hex() for k in keys[:n]), ','.join(x.hex() for x in sigs),
+                 spk.hex(), ssig.hex(), tag=tag + '/template')
         # (1) the signed input verifies
         yield case('accept', ssig, '-')
         # VerifySignature: the scriptSig lives in the transaction; no flags (so P2SH is not unwrapped)
@@ -354,6 +371,8 @@ class C05(Prop):
     # ---- real code -------------------------------------------------------------------------------------
     def model_line(self, c):
         a = c['args']
+        if c['op'] == 'c05.tmpl':
+            return '\t'.join(['c05.tmpl'] + list(a[:4]))
         if c['op'] == 'c05.case':
             expect, cls, sig, spk, fl, text, idx, ht, edit = a
             return '\t'.join(['c05.case', sig, spk, fl, text, idx, ht, edit])
@@ -433,6 +452,10 @@ class C05(Prop):
             etx = mtx if cls == 'm' else C.CTransaction.from_tx(mtx)
             edited = self.verify(sig, spk, etx, idx, fl)
             return '%s#%s#%s' % (base, edited, txfmt.show_tx(txfmt.from_tx(etx)))
+        if c['op'] == 'c05.tmpl':
+            kind, m, keys, sigs, spk_used, ssig_used = a
+            return guarded(lambda: self.lib_template(kind, int(m), [bytes.fromhex(x) for x in keys.split(',')],
+                                                     [bytes.fromhex(x) for x in sigs.split(',')]))
         if c['op'] == 'c05.vsig':
             expect, cls, fund, text, idx = a
             txfrom = txfmt.to_tx(txfmt.parse_tx(fund))
@@ -444,11 +467,32 @@ class C05(Prop):
             return guarded(run)
         raise ValueError(c['op'])
 
+    def lib_template(self, kind, m, pubs, sigs):
+        """scriptPubKey and scriptSig of a template, built with the library's API only"""
+        S, W = self.S, self.W
+        CS = S.CScript
+        if kind.endswith('p2pk'):
+            inner, isig = CS([pubs[0], S.OP_CHECKSIG]), [sigs[0]]
+        elif kind.endswith('p2pkh'):
+            inner, isig = W.P2PKHBitcoinAddress.from_pubkey(pubs[0]).to_scriptPubKey(), [sigs[0], pubs[0]]
+        else:
+            inner, isig = CS([m] + list(pubs) + [len(pubs), S.OP_CHECKMULTISIG]), [S.OP_0] + list(sigs)
+        if kind.startswith('p2sh'):
+            spk = W.P2SHBitcoinAddress.from_redeemScript(inner).to_scriptPubKey()
+            assert bytes(spk) == bytes(inner.to_p2sh_scriptPubKey())
+            ssig = CS(isig + [bytes(inner)])
+        else:
+            spk, ssig = inner, CS(isig)
+        return bytes(spk).hex() + '#' + bytes(ssig).hex()
+
     @staticmethod
     def _acc(expect, outcome):
         return outcome == 'ok' if expect == 'accept' else outcome == 'err:validation'
 
     def agree(self, c, io, mo):
+        if c['op'] == 'c05.tmpl':
+            # library-built == Spec template == what the harness signed and verified
+            return io == mo and io == c['args'][4] + '#' + c['args'][5]
         expect = c['args'][0]
         if c['op'] == 'c05.vsig':
             if expect == 'reject-precondition':
